@@ -298,9 +298,15 @@ func (q *jQuery) Gal(t *jTable, idx int, now time.Time, flushed int) string {
 	asof, until := "0", "0"
 	if q.HasAsOf {
 		asof = gtime(q.AsOf.T())
+		if q.AsOfOff != 0 {
+			asof = gtime(now.Add(time.Duration(q.AsOfOff)))
+		}
 	}
 	if q.HasUntil {
 		until = gtime(q.Until.T())
+		if q.UntilOff != 0 {
+			until = gtime(now.Add(time.Duration(q.UntilOff)))
+		}
 	}
 	w := "None"
 	if q.Where != nil {
@@ -679,6 +685,34 @@ func genGroupQuery(r *rand.Rand, t *jTable, window bool) jQuery {
 			if q.Until.T().Before(q.AsOf.T()) && r.Intn(4) > 0 {
 				q.AsOf, q.Until = q.Until, q.AsOf
 			}
+		}
+		// ranges relative to the database clock: offsets that are and are not multiples of the resolution
+		// (the clock itself is wherever the newest point left it, mostly off the grid)
+		rel := func(maxPeriods int) int64 {
+			off := int64(r.Intn(maxPeriods)) * t.ResNS
+			switch r.Intn(4) {
+			case 0:
+				off += t.ResNS / 3
+			case 1:
+				off += t.ResNS - 1
+			case 2:
+				off += 1 + r.Int63n(t.ResNS)
+			}
+			if off == 0 {
+				off = t.ResNS
+			}
+			return -off
+		}
+		if r.Intn(3) == 0 {
+			q.AsOfOff = rel(16)
+			if q.HasUntil && r.Intn(2) == 0 {
+				q.UntilOff = rel(6)
+				if q.UntilOff < q.AsOfOff && r.Intn(4) > 0 {
+					q.AsOfOff, q.UntilOff = q.UntilOff, q.AsOfOff
+				}
+			}
+		} else if q.HasUntil && r.Intn(4) == 0 {
+			q.UntilOff = rel(6)
 		}
 	}
 	return q
